@@ -156,7 +156,11 @@ func checkC10(replay string) {
 		}
 		vres, verr := runVet(root, ggrun.Bin, nil, vetPats...)
 		r.Eval(1)
-		if verr != nil || len(vres.Errors) > 0 || strings.Contains(vres.Stdout, "panic:") || strings.Contains(vres.Stdout, "fatal error:") || strings.Contains(vres.Stdout, "internal error") {
+		if vres.TimedOut && strings.HasPrefix(vres.Stdout, "hang:") {
+			r.Violate("hang/vet-driver/corpus", fmt.Sprintf("go vet -vettool on injected %v (round %d): %s", vetPats, round, head(vres.Stdout, 3000)), nil)
+		} else if vres.TimedOut {
+			r.Inconclusive(fmt.Sprintf("go vet -vettool on injected corpus round %d: %s", round, head(vres.Stdout, 200)))
+		} else if verr != nil || len(vres.Errors) > 0 || strings.Contains(vres.Stdout, "panic:") || strings.Contains(vres.Stdout, "fatal error:") || strings.Contains(vres.Stdout, "internal error") {
 			r.Violate("crash/vet-driver/"+crashKey(vres.Stdout), fmt.Sprintf("go vet -vettool on injected %v (round %d): %v %v\n%s", vetPats, round, verr, vres.Errors, head(vres.Stdout, 4000)), nil)
 		} else {
 			record(vres.Diags)
@@ -215,7 +219,11 @@ func checkC10(replay string) {
 		if pi%5 == 0 && !spec.Tests {
 			vres, verr := runVet(root, ggrun.Bin, cfg, "./...")
 			r.Eval(1)
-			if verr != nil || len(vres.Errors) > 0 || strings.Contains(vres.Stdout, "panic:") || strings.Contains(vres.Stdout, "fatal error:") {
+			if vres.TimedOut && strings.HasPrefix(vres.Stdout, "hang:") {
+				r.Violate("hang/vet-driver/generated-program", fmt.Sprintf("go vet -vettool on generated program %d cfg %v: %s", pi, cfg, head(vres.Stdout, 3000)), fs)
+			} else if vres.TimedOut {
+				r.Inconclusive(fmt.Sprintf("go vet -vettool on generated program %d: %s", pi, head(vres.Stdout, 200)))
+			} else if verr != nil || len(vres.Errors) > 0 || strings.Contains(vres.Stdout, "panic:") || strings.Contains(vres.Stdout, "fatal error:") {
 				r.Violate("crash/vet-driver/"+crashKey(vres.Stdout), fmt.Sprintf("go vet -vettool on generated program %d: %v %v\n%s", pi, verr, vres.Errors, head(vres.Stdout, 4000)), fs)
 			} else {
 				r.Distinct(fmt.Sprintf("gen-vet/%d", pi))
